@@ -110,7 +110,9 @@ def run(chk, tier):
              "so every function that lowers nr_cpukinds while keeping the array zeroes the vacated slot on every path (may-dataflow from the decrement to the exit)")
     nz = tailzero.run(chk, P, only_arrays=("cpukinds",), min_arrays=1)
     chk.floor("R-TAILZERO", "count-lowering sites", nz, 3)
-    chk.decided += ["a kind removed by restrict leaves no stale infos/cpuset pointers for the next registration to reuse (register after restrict)",
+    chk.decided += ['after restrict removed a kind the remaining kinds are re-ranked whenever 1 or 2 are left',
+                    'every info pair added to a kind passed a duplicate test of that pair; the adding loop is not left early',
+                    "a kind removed by restrict leaves no stale infos/cpuset pointers for the next registration to reuse (register after restrict)",
                     "non-zero flags, NULL and empty cpusets rejected with EINVAL", "get_by_cpuset: index / EXDEV / ENOENT for each inclusion outcome",
                     "register splits on INTERSECTS/INCLUDED, merges on CONTAINS/EQUAL, skips DIFFERENT; split removes the intersection from both sides",
                     "restrict always restricts the kinds; ranks recomputed after register/removal", "info pairs accumulate without exact duplicates"]
